@@ -46,6 +46,7 @@ def handle (line : String) : String :=
     | "save-run" | "save-hyp" | "cmac" => handleSave cmd args
     | "nand-open" | "nand-ops" | "nand-hdr" => handleNand cmd args
     | "close-run" => handleClose args
+    | "close-geom" => handleCloseGeom args
     | "sched-check" => handleSched args
     | "apptitle" | "smdh-bits" | "tiled" | "seeddb" | "cfg-load" | "cfg-build" | "cfg-ops" | "lzss" | "desc-rt" | "bits16" => handleCodec cmd args
     | "ping" => "pong"
